@@ -315,6 +315,25 @@ def enum_resolution(seed):
                             fails.append({"model": model, "detail": f"upgrade of {targets} in one resolver: slot {slot} of a/b should end at its highest version {versions[-1]}; final state holds {sorted(x for x in fin if x.startswith('a/b-'))}, plan {ops}"})
                         if kind == "min_install" and inst and any(o[1] in {f"a/b-{v}" for v in versions} and o[1] != f"a/b-{inst[0]}" for o in ops):
                             fails.append({"model": model, "detail": f"minimal install of {targets}: slot {slot} of a/b is installed ({inst}), yet the plan merges another version of that slot: {ops}"})
+    # the installed instance and a repository instance are the same version under different spellings (1.0 / 1.0-r0, 2.0 / 2.00, 1 / 01):
+    # the installed one is kept, for both strategies
+    for inst_v, src_v in (("1.0", "1.0-r0"), ("1.0-r0", "1.0"), ("2.0", "2.00"), ("2.00", "2.0"), ("1", "01"), ("3.1", "3.1-r0")):
+        for extra in ({}, {"0.5": {}}):
+            src_d = {"a": {"b": dict({src_v: {}}, **extra), "c": {"1": {"RDEPEND": "a/b"}}}}
+            inst_d = {"a": {"b": {inst_v: {}}}}
+            for targets in (["a/b"], ["a/c"]):
+                for kind in ("upgrade", "min_install"):
+                    sessions += 1
+                    model = {"digest": _digest(src_d, inst_d, targets, kind), "source": src_d, "installed": inst_d, "targets": targets, "strategy": kind}
+                    try:
+                        r, src, vdb, failures, ops = H.resolve(kind, src_d, inst_d, targets)
+                    except Exception as e:
+                        fails.append({"model": model, "detail": f"resolution raised {type(e).__name__}: {e}"})
+                        continue
+                    asserted["installed_equal"] += 1
+                    if failures or any(o[1].startswith("a/b-") for o in ops):
+                        fails.append({"model": dict(model, ops=ops), "detail": f"{kind} of {targets}: a/b-{inst_v} is installed and the repository's a/b-{src_v} is the same version, "
+                                                                                 f"so nothing is to be merged for a/b; plan {ops}, failures {failures}"})
     cases += sessions
     return {"name": "C16.resolution.bounded_enumeration",
             "bound": f"{per} seeded universes for each of the fixed seeds {THOROUGH_SEEDS if thorough else QUICK_SEEDS} (<= 4 packages x <= 3 versions, dependencies from {len(H.DEP_TEMPLATES)} templates, random installed subsets), "
